@@ -25,11 +25,13 @@ def run_shard(args):
 
 def do_crypt_side(args):
     """successful crypt inputs are never INVALID and carry the documented class"""
-    seed, n, en = args
+    seed, n, en = args[:3]
+    fl = args[3] if len(args) > 3 else "asan"
     acc = common.Acc()
-    w = rt.vw("asan")
+    w = rt.vw(fl)
     rng = rt.rng_for(seed, PID, "crypt")
     lines, meta = [], []
+    cands = []
     for i in range(n):
         m = rng.choice(en)
         s, f = gen.gen_valid(rng, m)
@@ -37,7 +39,12 @@ def do_crypt_side(args):
             s, _ = gen.mutate(rng, s, long_ok=False)
         if gen.cost_units(s, 8) > 15000:
             continue
-        lines.append(rt.crypt_line("crypt_rn", 0, b"phrase", s))
+        cands.append(s)
+    # the strings the dispatcher treats specially: empty, one character, failure tokens, bare tags
+    cands += [b"", b"a", b".", b"*0", b"*1", b"$", b"_", b"$1", b"$y", b"a$", b"ab", b"a*"] * 3
+    for s in cands:
+        ph = rng.choice([b"phrase", b"", b"p", b"12345678", b"123456789", b"a phrase of some length"])
+        lines.append(rt.crypt_line("crypt_rn", 0, ph, s))
         lines.append("checksalt %s" % pool.hx(s))
         meta.append(s)
     rows = rt.run_resilient(w, [rt.obj_line(0)], lines)
@@ -52,19 +59,19 @@ def do_crypt_side(args):
         if v != want:
             acc.violation("%s/checksalt-differs/%s" % (PID, gen.classify(s, en)),
                           "crypt_checksalt(%r) = %d, independent classifier %d" % (s, v, want),
-                          rt.replay_obj("asan", [lines[2 * k + 1]]))
+                          rt.replay_obj(fl, [lines[2 * k + 1]]))
         if rt.hash_of(a) is not None:
             acc.count("crypt_successes")
             if v == gen.SALT_INVALID:
                 acc.violation("%s/hashable-but-invalid/%s" % (PID, gen.classify(s, en)),
                               "crypt hashes %r but crypt_checksalt says INVALID" % s,
-                              rt.replay_obj("asan", [rt.obj_line(0)] + lines[2 * k:2 * k + 2]))
+                              rt.replay_obj(fl, [rt.obj_line(0)] + lines[2 * k:2 * k + 2]))
     return acc
 
 
 def run(tier):
     run_ = common.Run(PID, tier, "exploration")
-    tree = rt.prepare(["asan"])
+    tree = rt.prepare(["asan", "opt"])
     en = enabled_methods(tree.gendir())
     exe = tree.program("opt", "venum.c", name="venum-opt", wrap=False)
     nsh = 16
@@ -141,7 +148,7 @@ def run(tier):
         shutil.rmtree(d, ignore_errors=True)
     run_.merge(acc2)
     n = 3000 if tier == "quick" else 40000
-    for a in pool.pmap(do_crypt_side, [(run_.seed * 100 + i, n // 16, en) for i in range(16)]):
+    for a in pool.pmap(do_crypt_side, [(run_.seed * 100 + i, n // 16, en, ("asan", "opt")[i % 2]) for i in range(16)]):
         run_.merge(a)
     # preferred method: OK for checksalt, and gensalt(NULL) == gensalt(preferred)
     w = rt.vw("asan")
@@ -190,7 +197,7 @@ def run(tier):
         "other_configurations_enumerated": int(run_.acc.n.get("configurations", 0)),
         "strings_checked_in_other_configurations": int(run_.acc.n.get("config_evaluations", 0)),
         "samples": ["$y$", "ab", "$2x$", "_", "$zz"],
-        "flavours": ["opt (-O2) for the enumeration", "asan for the crypt side"],
+        "flavours": ["opt (-O2) for the enumeration", "asan and opt for the crypt side"],
     }
     return run_.finish(cov, assumptions=[
         "exhaustive refers to the enumerated spaces (length <= 3 always; length 4 printable in the thorough tier)"],
